@@ -97,6 +97,12 @@ class HarnessError(Exception):
     pass
 
 
+def documented_refusal(e):
+    """Errors the library documents for inputs outside its domain; a generator that happens to produce such an input ends
+    the run (prefix stays checked) instead of reporting a violation.  Today: CUSUM's zero-variance estimation window."""
+    return isinstance(e, ValueError) and "Standard deviation is 0" in str(e)
+
+
 # --------------------------------------------------------------------------------------------
 # per-run context
 # --------------------------------------------------------------------------------------------
@@ -159,6 +165,9 @@ class Ctx:
         except (Violation, NearTie, EndRun, HarnessError):
             raise
         except Exception as e:  # noqa: BLE001 - by design
+            if documented_refusal(e):
+                self.note("documented_refusal:cusum_zero_variance")
+                raise EndRun()
             tb = traceback.extract_tb(e.__traceback__)
             where = ""
             for fr in reversed(tb):
